@@ -334,7 +334,7 @@ func (P *Program) effectCheck() (funcs []*ssa.Function, findings []effectFinding
 					}
 					full := callee.String()
 					for _, d := range denyCalls {
-						if full == d || (strings.HasSuffix(d, ".") && strings.HasPrefix(full, d)) || (strings.HasSuffix(d, ".") && strings.HasPrefix(full, "("+d)) || (strings.HasSuffix(d, ".") && strings.HasPrefix(full, "(*"+d)) {
+						if full == d || strings.HasPrefix(full, d+"[") || (strings.HasSuffix(d, ".") && strings.HasPrefix(full, d)) || (strings.HasSuffix(d, ".") && strings.HasPrefix(full, "("+d)) || (strings.HasSuffix(d, ".") && strings.HasPrefix(full, "(*"+d)) {
 							add(fn, "nondet-call", x.Pos(), "call of "+full)
 						}
 					}
